@@ -1,12 +1,11 @@
-(* C19 - TightVNC extension: every message type is gated, and (with the proposed fix for the stale
-   upload name) every file-system call of every handler is below the transfer root *)
+(* C19 - TightVNC extension: every message type is gated, and every file-system call of every handler is below the transfer root *)
 From Coq Require Import ZArith List Bool Lia.
 From LV Require Import Gen.Consts_C19 Session.FileXferDefs Session.FileXferProofs Session.FileXferTight.
 Import ListNotations.
 Local Open Scope Z_scope.
 
-Definition v_tight_tree : tvariant := {| f19 := true; fstale := false |}.     (* HEAD *)
-Definition v_tight_fixed : tvariant := {| f19 := true; fstale := true |}.     (* with notes/fix_C19_3.diff *)
+Definition v_tight_tree : tvariant := {| f19 := true; fstale := true |}.       (* the tree (fix commits 9f956a4, 7654ac8) *)
+Definition v_tight_prefix : tvariant := {| f19 := true; fstale := false |}.    (* the flow before 7654ac8 *)
 
 Lemma conv_below : forall v root n p, f19 v = true -> conv v root n = Some p -> below_root root p.
 Proof.
@@ -36,7 +35,7 @@ Proof.
 Qed.
 
 Lemma step_ok : forall root st m ops st',
-  name_ok root st -> tight_step v_tight_fixed root st m = (ops, st') ->
+  name_ok root st -> tight_step v_tight_tree root st m = (ops, st') ->
   Forall (fun o => below_root root (tfs_path o)) ops /\ name_ok root st'.
 Proof.
   intros root st m ops st' Hn.
@@ -45,15 +44,15 @@ Proof.
   { intros s0 H0 H. inversion H; subst. split; [constructor|exact H0]. }
   destruct m; cbn [tight_step].
   - destruct (len_ok name); [|apply Nil; auto].
-    destruct (conv v_tight_fixed root name) as [p|] eqn:Ec; [|apply Nil; auto].
-    intro H; inversion H; subst. split; [repeat constructor; exact (conv_below v_tight_fixed root name p eq_refl Ec)|auto].
+    destruct (conv v_tight_tree root name) as [p|] eqn:Ec; [|apply Nil; auto].
+    intro H; inversion H; subst. split; [repeat constructor; exact (conv_below v_tight_tree root name p eq_refl Ec)|auto].
   - destruct (len_ok name); [|apply Nil; auto].
-    destruct (conv v_tight_fixed root name) as [p|] eqn:Ec; [|apply Nil; auto].
-    assert (B : below_root root p) by exact (conv_below v_tight_fixed root name p eq_refl Ec).
+    destruct (conv v_tight_tree root name) as [p|] eqn:Ec; [|apply Nil; auto].
+    assert (B : below_root root p) by exact (conv_below v_tight_tree root name p eq_refl Ec).
     intro H; inversion H; subst. split; [repeat constructor; auto|auto].
   - destruct (len_ok name); [|apply Nil; auto].
-    destruct (conv v_tight_fixed root name) as [p|] eqn:Ec.
-    + assert (B : below_root root p) by exact (conv_below v_tight_fixed root name p eq_refl Ec).
+    destruct (conv v_tight_tree root name) as [p|] eqn:Ec.
+    + assert (B : below_root root p) by exact (conv_below v_tight_tree root name p eq_refl Ec).
       intro H; inversion H; subst. split; [repeat constructor; auto|right; exact B].
     + apply Nil. left. reflexivity.
   - destruct fails; [apply close_undone_ok; auto|apply Nil; auto].
@@ -63,20 +62,20 @@ Proof.
   - destruct has_reason; [apply close_undone_ok; auto|apply Nil; auto].
   - apply Nil; auto.
   - destruct (Zlength name >=? C19_PATH_MAX - 1); [apply Nil; auto|].
-    destruct (conv v_tight_fixed root name) as [p|] eqn:Ec; [|apply Nil; auto].
-    intro H; inversion H; subst. split; [repeat constructor; exact (conv_below v_tight_fixed root name p eq_refl Ec)|auto].
+    destruct (conv v_tight_tree root name) as [p|] eqn:Ec; [|apply Nil; auto].
+    intro H; inversion H; subst. split; [repeat constructor; exact (conv_below v_tight_tree root name p eq_refl Ec)|auto].
 Qed.
 
-(* C19_tight_every_entry_confined (fixed flow): for every sequence of extension messages of every
+(* C19_tight_every_entry_confined (the tree): for every sequence of extension messages of every
    type, every name, every outcome of creat/write: every path handed to the file system is
    root ++ "/" ++ rel with rel never climbing above the root *)
 Theorem tight_every_entry_confined : forall reg en vo root ms st,
   name_ok root st ->
-  Forall (fun o => below_root root (tfs_path o)) (tight_run v_tight_fixed reg en vo root st ms).
+  Forall (fun o => below_root root (tfs_path o)) (tight_run v_tight_tree reg en vo root st ms).
 Proof.
   intros reg en vo root ms. induction ms as [|m rest IH]; intros st Hn; cbn [tight_run]; [constructor|].
   destruct (tight_gate reg en vo); [|constructor].
-  destruct (tight_step v_tight_fixed root st m) as [ops st'] eqn:E.
+  destruct (tight_step v_tight_tree root st m) as [ops st'] eqn:E.
   destruct (step_ok _ _ _ _ _ Hn E) as [H1 H2]. apply Forall_app. split; auto.
 Qed.
 
@@ -85,17 +84,17 @@ Theorem tight_every_entry_gated : forall v reg en vo root st ms,
   tight_gate reg en vo = false -> tight_run v reg en vo root st ms = [].
 Proof. intros. destruct ms; cbn [tight_run]; auto. rewrite H. reflexivity. Qed.
 
-(* HEAD: the name of a refused upload request stays in rtcp->rcft.rcfu.fName; a later
+(* before 7654ac8: the name of a refused upload request stayed in rtcp->rcft.rcfu.fName; a later
    rfbFileUploadFailed / completion message unlinks / utimes that unconverted name (F19b):
    upload "/a" (created), upload "/../x" (refused), upload-failed  ->  unlink("/../x") *)
 Lemma tight_stale_name_w :
-  tight_run v_tight_tree true true false [47; 114] tstate0
+  tight_run v_tight_prefix true true false [47; 114] tstate0
     [TUpload [47; 97] true; TUpload [47; 46; 46; 47; 120] true; TUploadFailed true]
   = [TCreat [47; 114; 47; 97]; TUnlink [47; 46; 46; 47; 120]].
 Proof. vm_compute. reflexivity. Qed.
 
 Theorem tight_every_entry_confined_refuted : exists root ms o,
-  In o (tight_run v_tight_tree true true false root tstate0 ms) /\ ~ below_root root (tfs_path o).
+  In o (tight_run v_tight_prefix true true false root tstate0 ms) /\ ~ below_root root (tfs_path o).
 Proof.
   exists [47; 114], [TUpload [47; 97] true; TUpload [47; 46; 46; 47; 120] true; TUploadFailed true], (TUnlink [47; 46; 46; 47; 120]).
   split. { rewrite tight_stale_name_w. right; left; reflexivity. }
@@ -103,7 +102,7 @@ Proof.
 Qed.
 
 Example tight_confined_nonvacuous :
-  tight_run v_tight_fixed true true false [47; 114] tstate0
+  tight_run v_tight_tree true true false [47; 114] tstate0
     [TList [47]; TUpload [47; 97] true; TUploadDone; TMkdir [47; 100]; TDownload [47; 97]]
   = [TOpendir [47; 114; 47]; TCreat [47; 114; 47; 97]; TUtime [47; 114; 47; 97]; TMkdirOp [47; 114; 47; 100];
      TStat [47; 114; 47; 97]; TOpenR [47; 114; 47; 97]].
